@@ -29,6 +29,10 @@ def gen_case(rng, base, cli):
     L = ["127.0.0.1:%d" % base, "127.0.0.1:%d" % (base + 1), "127.0.0.1:%d" % (base + 2)]
     env = [(L[0], base), (L[1], base + 1), (L[2], base + 2)]
     names = ["a", "b"]
+    if rng.chance(1, 4):
+        # names with characters that are special in URLs: a space must travel percent-encoded, a '+' stands for itself - and the two
+        # names are different proxies
+        names = rng.choice([["db replica", "db+replica"], ["a b", "b"], ["x+y", "x y"]])
     ops, raws = [], []
     tr = Tracker()
 
@@ -64,7 +68,7 @@ def gen_case(rng, base, cli):
                     A.req("POST", "/proxies", A.J({"name": n, "listen": li, "upstream": up, "enabled": True})))
         elif k < 24:
             entries = []
-            for m in rng.choice([["a"], ["a", "b"], ["b"]]):
+            for m in rng.choice([[names[0]], [names[0], names[1]], [names[1]]]):
                 entries.append({"name": m, "listen": L[names.index(m)], "upstream": rng.choice(["u1:1", "u2:2"]), "enabled": rng.chance(3, 4)})
             add({"op": "populate", "entries": entries},
                 A.req("POST", "/populate", A.J([dict(e, toxics=None) for e in entries])))
